@@ -8,6 +8,7 @@ package main
 
 import (
 	"bufio"
+	"encoding/binary"
 	"encoding/json"
 	"flag"
 	"fmt"
@@ -39,6 +40,7 @@ type progSet struct {
 }
 
 var sharedWire []byte // a read-only input slice shared by concurrent decoders
+var sharedSnap []byte // what it held when the run began
 
 // every number GenerateRandomNumber returned during the run (C09/C18: locally generated numbers differ from call to call)
 var (
@@ -122,6 +124,34 @@ func runOp(kind string, g int, seed int64, i int) (out string) {
 			return "err"
 		}
 		return digest(projMsg(m))
+	case "decode_unknown":
+		// own datagram (a copy of the shared one) with an unsupported, non-critical payload spliced in front: the skip
+		// path of the chain walker, on every goroutine at once
+		w := append([]byte{}, sharedWire...)
+		first := w[16]
+		unk := []byte{first, 0, 0, byte(8 + g%5), 1, 2, 3, 4, 5, 6, 7, 8}[:8+g%5]
+		w = append(append(append([]byte{}, w[:28]...), unk...), w[28:]...)
+		w[16] = byte(49 + (g+i)%16)
+		binary.BigEndian.PutUint32(w[24:28], uint32(len(w)))
+		m := new(message.IKEMessage)
+		if err := m.Decode(w); err != nil {
+			return "err"
+		}
+		return digest(projMsg(m))
+	case "reencode_shared":
+		// decode the SHARED read-only input, add a payload of one's own to a container of one's own, encode: nothing of
+		// that may write the shared input (other goroutines are decoding it)
+		m := new(message.IKEMessage)
+		if err := m.Decode(sharedWire); err != nil {
+			return "err"
+		}
+		n := &message.Notification{NotifyMessageType: uint16(16384 + g), NotificationData: []byte{byte(g), byte(i), 3}}
+		m2 := &message.IKEMessage{IKEHeader: m.IKEHeader, Payloads: append(message.IKEPayloadContainer{n}, m.Payloads...)}
+		w, err := m2.Encode()
+		if err != nil {
+			return "err"
+		}
+		return digest(octOf(w))
 	case "protect_unprotect":
 		suite := suiteByIndex(g%9 + 1)
 		keys := patternKeys(suite, g)
@@ -352,6 +382,7 @@ func raceMain(argv []string) int {
 			J{"k": "KE", "grp": 14, "data": fillPattern("seeded", 256, 1)}, J{"k": "NONCE", "data": fillPattern("seeded", 32, 2)},
 			J{"k": "N", "proto": 0, "ntype": 16388, "spi": Oct{}, "data": fillPattern("seeded", 20, 3)}}})
 		sharedWire, _ = m.Encode()
+		sharedSnap = append([]byte{}, sharedWire...)
 	}
 	res := &DriveResult{Name: "race", Extra: J{}, StepsBy: J{}}
 	sc := bufio.NewScanner(f)
@@ -421,6 +452,10 @@ func raceMain(argv []string) int {
 			}
 		}
 		runtime.GOMAXPROCS(old)
+	}
+	if string(sharedWire) != string(sharedSnap) {
+		res.Failures = append(res.Failures, J{"prop": "C18", "sig": "interference:shared-input-written",
+			"what": "the read-only input slice shared by concurrent decoders was written during the run", "replay": J{"fam": "race-set"}})
 	}
 	if randDup > 0 {
 		res.Failures = append(res.Failures, J{"prop": "C18", "sig": "interference:random-number-repeated",
